@@ -193,6 +193,33 @@ example : ((C11.appendTreeAll C11.pairHash (emptyTree C11.pairHash) [[1], [2], [
       = some (root C11.pairHash [[1], [2], [3], [9], [5]]) := by
   decide +kernel
 
+/-! ### update through a proof, any set of leaves -/
+
+/-- `Update` through a proof yields the tree of the modified list: the statement of `Props/C11.lean`, in
+full (any duplicate-free list of leaf positions in any order; success of `Update` is a hypothesis, so
+no bound on the size is needed). -/
+theorem C11_update_via_proof : C11_update_via_proof_Statement := by
+  intro hf data t t' pos upd h hnd hlen hlt hu
+  have hb := C11_built hf data t h
+  have hl : (data.map hf.leaf).length = data.length := by simp
+  have := update_multi hf t t' (data.map hf.leaf) hb.stored hb.size hb.path pos upd hnd
+    (by simpa using hlt) hlen (by rw [hl]; exact hu)
+  have hmap : ((pos.zip upd).foldl (fun d pu => d.set pu.1 pu.2) data).map hf.leaf
+      = setMany (data.map hf.leaf) (pos.zip (upd.map hf.leaf)) := by
+    have := map_setMany hf.leaf (pos.zip upd) data
+    simp only [setMany] at this ⊢
+    rw [this, List.zip_map_right]
+    rfl
+  simp only
+  rw [this, hl, root, hmap]
+
+/-- non-vacuity: a successful update of the leaves 4, 0 and 2 (in this order) of a tree of five leaves,
+and its root is the root of the modified list -/
+example : ((C11.appendTreeAll C11.pairHash (emptyTree C11.pairHash) [[1], [2], [3], [4], [5]]).bind
+    fun t => update C11.pairHash t ([4, 0, 2].map fun p => 2 ^ getHeight 5 + p) [[9], [8], [7]]).map (·.core.root)
+      = some (root C11.pairHash [[8], [2], [7], [4], [9]]) := by
+  decide +kernel
+
 /-! ### proof generation and verification, one leaf -/
 
 /-- Completeness of `GenerateProof` + `VerifyProof` for one queried leaf hash: in a tree built by appends
